@@ -272,6 +272,27 @@ var extReadOnly = map[string]bool{
 	"github.com/mattn/go-colorable": true, "github.com/mattn/go-isatty": true, "github.com/mgutz/ansi": true,
 }
 
+// extReadOnlyFn: the functions of package slices/maps that only read their
+// arguments (the packages as a whole are not read-only: Sort, Insert,
+// Reverse, Delete ... write through the slice).
+func extReadOnlyFn(pkg, full string) bool {
+	if pkg != "slices" && pkg != "maps" {
+		return false
+	}
+	name := full
+	if i := strings.IndexByte(name, '['); i >= 0 {
+		name = name[:i]
+	}
+	if i := strings.LastIndexByte(name, '.'); i >= 0 {
+		name = name[i+1:]
+	}
+	switch name {
+	case "Index", "IndexFunc", "Contains", "ContainsFunc", "Equal", "EqualFunc", "Compare", "CompareFunc", "Clone", "Concat", "BinarySearch", "BinarySearchFunc", "Max", "Min", "MaxFunc", "MinFunc", "IsSorted", "IsSortedFunc", "Keys", "Values", "All", "Collect", "Sorted", "SortedFunc":
+		return true
+	}
+	return false
+}
+
 // extMutator: methods of otherwise read-only packages that change their
 // receiver (a shared *template.Template or *regexp.Regexp is safe to execute
 // concurrently, not to (re)parse or reconfigure).
@@ -319,7 +340,7 @@ func extFreshResult(pkg, name string) bool {
 		}
 	case "slices", "maps":
 		switch name {
-		case "Clone", "Collect", "Sorted", "SortedFunc", "Concat", "Index", "IndexFunc", "Contains", "Equal", "Compare":
+		case "Clone", "Collect", "Sorted", "SortedFunc", "Concat", "Index", "IndexFunc", "ContainsFunc", "Contains", "Equal", "Compare":
 			return true
 		}
 	}
